@@ -18,7 +18,7 @@ import (
 func init() {
 	register(&Prop{
 		ID: "C20", Level: "exploration",
-		Rule: "one case = a router with LoggerWithHandler(capturing handler) over all handler kinds, a drawn router-wide client-IP resolver (none, succeeding, failing) and routes with a drawn per-route resolver (inherit, other succeeding, failing, nil), plus a twin router without the logger; 8-20 requests per run, each with a scripted handler behaviour from {explicit status at the class boundaries 200/299/300/399/400/499/500/599 and every code 301-308 and 310, each with or without a Location header set, 201 with a Location header, informational only, implicit 200 by a body write, no write at all, redirect with Location, 3xx without Location, write on a failing connection, panic with a drawn value} and a drawn handler kind (route, no-route, no-method, built-in redirect, options). Oracle: exactly one record per returning handler, emitted after the handler returned; status attribute = the status the recorder reports (first final status forwarded, 200 if none); method, host, path of the request; message = resolved client IP / remote address when no resolver is configured / 'unknown' when resolution fails, using the route's resolver in route handlers and the router-wide one elsewhere; level INFO/DEBUG/WARN/ERROR per status class, location attribute exactly for 3xx with a Location header; the bytes and headers on the simulated connection equal those of the twin router; a panic passes through as the identical value and emits no record. latency is ignored. Non-trivial: the run covered at least 3 status classes and 2 handler kinds; distinct = hash of (configuration, request scripts).",
+		Rule: "one case = a router with LoggerWithHandler(capturing handler) over all handler kinds, a drawn router-wide client-IP resolver (none, succeeding, failing - returning nil or a rejected candidate address next to its error) and routes with a drawn per-route resolver (inherit, other succeeding, failing, nil), plus a twin router without the logger; 8-20 requests per run, each with a scripted handler behaviour from {explicit status at the class boundaries 200/299/300/399/400/499/500/599 and every code 301-308 and 310, each with or without a Location header set, 201 with a Location header, informational only, implicit 200 by a body write, no write at all, redirect with Location, 3xx without Location, write on a failing connection, panic with a drawn value} and a drawn handler kind (route, no-route, no-method, built-in redirect, options). Oracle: exactly one record per returning handler, emitted after the handler returned; status attribute = the status the recorder reports (first final status forwarded, 200 if none); method, host, path of the request; message = resolved client IP / remote address when no resolver is configured / 'unknown' when resolution fails, using the route's resolver in route handlers and the router-wide one elsewhere; level INFO/DEBUG/WARN/ERROR per status class, location attribute exactly for 3xx with a Location header; the bytes and headers on the simulated connection equal those of the twin router; a panic passes through as the identical value and emits no record. latency is ignored. Non-trivial: the run covered at least 3 status classes and 2 handler kinds; distinct = hash of (configuration, request scripts).",
 		Run:  runC20, Quick: 64000, Thorough: 9600000,
 		Real: []string{"Logger middleware (logger.go)", "Context.ClientIP / RemoteIP", "recorder ResponseWriter", "ServeHTTP dispatch", "option processing (WithClientIPResolver)"},
 		Stub: []string{"slog sink: capturing handler", "client-IP resolvers: scripted", "net/http connection: simulated connection", "wall clock: real but unobserved (latency attribute excluded)"},
@@ -32,6 +32,10 @@ type scriptedResolver struct {
 
 func (r scriptedResolver) ClientIP(fox.Context) (*net.IPAddr, error) {
 	if r.err != nil {
+		if r.ip != "" {
+			// a resolver may hand back its rejected candidate together with the reason: resolution still failed
+			return &net.IPAddr{IP: net.ParseIP(r.ip)}, r.err
+		}
 		return nil, r.err
 	}
 	return &net.IPAddr{IP: net.ParseIP(r.ip)}, nil
@@ -58,12 +62,13 @@ func runC20(src sim.Source, o Opts) *Result {
 	res.Case["prop"] = "C20"
 	capt := &world.Capture{}
 	globalRes := src.Intn("globalresolver", 3) // 0 none 1 ok 2 failing
+	failIP := sim.Pick(src, "failingresolveraddr", []string{"", "203.0.113.66"}) // what a failing resolver returns next to its error
 	var gopt []fox.GlobalOption
 	switch globalRes {
 	case 1:
 		gopt = append(gopt, fox.WithClientIPResolver(scriptedResolver{ip: "203.0.113.7"}))
 	case 2:
-		gopt = append(gopt, fox.WithClientIPResolver(scriptedResolver{err: errResolver}))
+		gopt = append(gopt, fox.WithClientIPResolver(scriptedResolver{ip: failIP, err: errResolver}))
 	}
 	cfg := world.Cfg{NoMethod: true, AutoOptions: true, GlobalTS: 2}
 	w, err := world.Build(cfg, append([]fox.GlobalOption{fox.WithMiddleware(fox.LoggerWithHandler(capt))}, gopt...)...)
@@ -91,7 +96,7 @@ func runC20(src sim.Source, o Opts) *Result {
 			case 1:
 				o = append(o, fox.WithClientIPResolver(scriptedResolver{ip: "198.51.100.9"}))
 			case 2:
-				o = append(o, fox.WithClientIPResolver(scriptedResolver{err: errResolver}))
+				o = append(o, fox.WithClientIPResolver(scriptedResolver{ip: failIP, err: errResolver}))
 			case 3:
 				o = append(o, fox.WithClientIPResolver(nil))
 			}
@@ -104,7 +109,7 @@ func runC20(src sim.Source, o Opts) *Result {
 			}
 		}
 	}
-	res.Case["config"] = fmt.Sprintf("global resolver %d, routes %v", globalRes, routes)
+	res.Case["config"] = fmt.Sprintf("global resolver %d, routes %v, failing resolvers return address %q with their error", globalRes, routes, failIP)
 	expectMsg := func(kind model.Kind, r rdef) string {
 		eff := globalRes
 		if kind == model.KRoute {
@@ -275,7 +280,7 @@ func runC20(src sim.Source, o Opts) *Result {
 	capt.OnRecord = nil
 	res.Case["requests"] = scripts
 	res.Nontrivial = len(classes) >= 3 && len(kinds) >= 2
-	res.CaseKey = hashStrings(append([]string{fmt.Sprint(globalRes), fmt.Sprint(routes)}, scripts...)...)
+	res.CaseKey = hashStrings(append([]string{fmt.Sprint(globalRes), fmt.Sprint(routes), failIP}, scripts...)...)
 	res.Hash = hashStrings(fmt.Sprint(res.Checks), fmt.Sprint(scripts))
 	res.Steps = len(scripts)
 	return res
